@@ -159,6 +159,10 @@ var specialDouble = regexp.MustCompile(`Expected '(-?Infinity|NaN)' but found`)
 
 func main() {
 	rig.Quiet()
+	if len(os.Args) > 2 && os.Args[1] == "fidelity" {
+		fidelityMain(os.Args[2]) // the fixed fixture: see fidelity.go
+		return
+	}
 	b, err := os.ReadFile(os.Args[1])
 	if err != nil {
 		fmt.Println(err)
@@ -186,15 +190,35 @@ func main() {
 		os.Exit(2)
 	}
 	defer ns.Stop()
+	// calls are announced ("S") and closed ("D") in a progress file, and the
+	// results are rewritten after every program: when the code under test takes
+	// the process down, the driver still has the programs decided so far and
+	// the calls that were in flight
+	progress, _ = os.OpenFile(bt.Out+".progress", os.O_CREATE|os.O_WRONLY|os.O_APPEND, 0o644)
 	var results []*progResult
 	for _, ps := range bt.Programs {
 		results = append(results, checkProgram(ps, bt, ns))
+		out, _ := json.Marshal(results)
+		tmp := bt.Out + ".tmp"
+		if err := os.WriteFile(tmp, out, 0o644); err == nil {
+			err = os.Rename(tmp, bt.Out)
+		}
+		if err != nil {
+			fmt.Println(err)
+			os.Exit(2)
+		}
 	}
-	out, _ := json.Marshal(results)
-	if err := os.WriteFile(bt.Out, out, 0o644); err != nil {
-		fmt.Println(err)
-		os.Exit(2)
+}
+
+var progress *os.File
+
+// announce logs one call before it is made; the returned function closes it.
+func announce(token, class, what string) func() {
+	if progress == nil {
+		return func() {}
 	}
+	fmt.Fprintf(progress, "S\t%s\t%s\t%s\n", token, class, what)
+	return func() { fmt.Fprintf(progress, "D\t%s\n", token) }
 }
 
 // specialDoubleWitness: echoDouble(pad, +Inf) over http/json for every pad
@@ -1317,6 +1341,10 @@ func runCall(prog *idl.Program, svc *idl.Service, mi methodInfo, gm reflect.Valu
 		class = "application-exception"
 		wantAppType = []int32{frugal.APPLICATION_EXCEPTION_UNKNOWN, frugal.APPLICATION_EXCEPTION_MISSING_RESULT, frugal.APPLICATION_EXCEPTION_INVALID_TRANSFORM, 42}[rng.Intn(4)]
 		outcome[nOut-1] = thrift.NewTApplicationException(wantAppType, "app "+token)
+	case r < 5 && retIdx >= 0 && nillable(mt.Out(0)):
+		// "not found" the way Go code says it: a nil struct / container / binary
+		// and a nil error (the stub leaves the result at its zero value)
+		class = "nil-value"
 	}
 	if forceReplySize > 0 && retIdx >= 0 && !m.Oneway {
 		if k, _, _, _ := prog.ResolveKind(mi.file, m.Ret); k == "string" || k == "binary" {
@@ -1350,6 +1378,8 @@ func runCall(prog *idl.Program, svc *idl.Service, mi methodInfo, gm reflect.Valu
 	exp.outcome[token] = outcome
 	exp.mu.Unlock()
 
+	closeCall := announce(token, class, fmt.Sprintf("%s.%s on %s", svc.Name, m.Name, legName))
+	defer closeCall()
 	done := make(chan []reflect.Value, 1)
 	var panicked interface{}
 	go func() {
@@ -1447,6 +1477,22 @@ func runCall(prog *idl.Program, svc *idl.Service, mi methodInfo, gm reflect.Valu
 				addV("C03:return-differs:"+k, fmt.Sprintf("%s.%s on %s: the caller's result (%s) differs from what the handler returned", svc.Name, m.Name, legName, k), wit(map[string]interface{}{"handler": wantRet, "caller": t.Canon()}))
 			}
 		}
+	case "nil-value":
+		// Thrift cannot encode "nil": the emitted processor answers with a reply
+		// that carries no result, the emitted client hands the caller the zero
+		// value.  What the statement rules out is an outcome the handler did not
+		// produce: a transport failure, an application error, a non-empty value.
+		k, _, _, _ := prog.ResolveKind(mi.file, m.Ret)
+		if ae, ok := callErr.(thrift.TApplicationException); ok && ae.TypeId() == frugal.APPLICATION_EXCEPTION_MISSING_RESULT {
+			break // a client saying "no result" would be telling the truth as well
+		}
+		if callErr != nil {
+			addV("C03:nil-return:"+k+":caller-got-error", fmt.Sprintf("%s.%s on %s: the handler returned (nil, nil) for a result of kind %s, the caller got error %T: %v", svc.Name, m.Name, legName, k, callErr, callErr), wit(map[string]interface{}{"token": token, "arguments": argTrees}))
+			return class
+		}
+		if v := out[0]; !(v.Kind() == reflect.Ptr && v.IsNil()) && !((v.Kind() == reflect.Slice || v.Kind() == reflect.Map) && v.Len() == 0) {
+			addV("C03:nil-return:"+k+":caller-got-a-value", fmt.Sprintf("%s.%s on %s: the handler returned (nil, nil), the caller got %+v", svc.Name, m.Name, legName, v.Interface()), wit(map[string]interface{}{"token": token}))
+		}
 	case "declared-exception":
 		if callErr == nil {
 			addV("C03:declared-exception-lost", fmt.Sprintf("%s.%s on %s: the handler raised a declared exception, the caller got no error", svc.Name, m.Name, legName), wit(nil))
@@ -1501,6 +1547,12 @@ func runCall(prog *idl.Program, svc *idl.Service, mi methodInfo, gm reflect.Valu
 		res.Sample = map[string]interface{}{"service": svc.Name, "method": m.Name, "leg": legName, "arguments": argTrees, "returned": wantRet}
 	}
 	return class
+}
+
+// nillable: Go result types whose zero value is nil (struct and union
+// pointers, lists, sets, maps, binary).
+func nillable(t reflect.Type) bool {
+	return t.Kind() == reflect.Ptr || t.Kind() == reflect.Slice || t.Kind() == reflect.Map
 }
 
 // exceptionValue constructs the emitted exception type declared under the
